@@ -383,6 +383,8 @@ def run(ctx):
         c15_codec.run_part(ctx, case, bad, mlr_rows, P)
         from checks import c15_fmt
         c15_fmt.run_part(ctx, case, bad, mlr_rows, P, ref_fmtnum)
+        from checks import c15_verbs
+        c15_verbs.run_part(ctx, case, bad, mlr_rows, P)
     for i in (0, len(meta) // 3, len(meta) // 2, len(meta) - 1):
         ctx.sample(meta[i])
     if not ok:
